@@ -23,6 +23,8 @@ ANCHORS = ["reshape.transpose", "reshape.swapaxes", "reshape.rollaxis", "reshape
 ANCHORS_REQUIRED = ["reshape.transpose", "reshape.swapaxes", "reshape.rollaxis", "reshape.repeat", "reshape.newaxis", "reshape.squeeze", "reshape.broadcast", "align.broadcast_arrays"]
 FLOORS = {"quick": {"evaluations": 1500, "distinct": 300, "outcome:variants-checked": 8000, "outcome:square-regime": 300},
           "thorough": {"evaluations": 30000, "distinct": 600}}
+# labels of several types on one axis, held in an object array (years next to a climatology, ...): kept as they are
+MIXED = np.array([1990, 2000.5, 'clim'], dtype=object)
 FAMILIES = ['transpose', 'T', 'swapaxes', 'rollaxis', 'newaxis', 'squeeze', 'repeat', 'broadcast', 'broadcast_arrays', 'roundtrip']
 
 
@@ -65,6 +67,9 @@ def dspec(rng, nd=None, regime=None, dims=None, dtype='f', minsize=1):
             l = [100.0 * (j + 1) + x / 2.0 for x in rng.sample(range(0, 80), s)]
         else:
             l = [d + c for c in rng.sample('abcdefgh', s)]
+        if s == 2 and rng.random() < 0.12:
+            # a flag dimension: labels False / True (bool dtype)
+            k, l = 'b', rng.choice([[False, True], [True, False]])
         labs.append(l)
         kinds.append(k)
     return {"dims": list(dims), "labels": labs, "kinds": kinds, "values": gen.values(rng, tuple(sizes), dtype), "regime": regime,
@@ -108,7 +113,7 @@ def check(case, ctx):
         ctx.outcomes['square-regime'] += 1
     base = " on dims=%r shape=%r" % (m.dims, m.shape)
 
-    def judge(label, fn, exp_dims, src=m, introduced=(), new_labels=None, operands=None, exp_values=None, key=fam, relax_none=(), ambient=True):
+    def judge(label, fn, exp_dims, src=m, introduced=(), new_labels=None, operands=None, exp_values=None, key=fam, relax_none=(), ambient=True, exact_types=False):
         label = label + base
         res, exc = ctx.call(label, fn, operands=operands or (a,), meta='carry', meta_owner=ID, ambient=ambient)
         ctx.outcomes['variants-checked'] += 1
@@ -137,6 +142,9 @@ def check(case, ctx):
                     else:
                         ctx.v(ID, key + ":new-labels", "%s: new axis %r has labels %r, expected %r" % (label, d, lg, new_labels[d]))
                         return res
+                elif exact_types and [type(x_).__name__ for x_ in lg] != [type(x_).__name__ for x_ in new_labels[d]]:
+                    ctx.v(ID, key + ":new-label-types", "%s: new axis %r has labels %r, expected %r with their types" % (label, d, lg, new_labels[d]))
+                    return res
         msg = model.check_coordmap(g, src, label, introduced=introduced)
         if msg:
             ctx.v(ID, key + ":coordmap", msg)
@@ -182,7 +190,7 @@ def check(case, ctx):
                 judge("a.rollaxis(%r, %d)" % (ai, start), fn, [m.dims[q] for q in perm], exp_values=np.rollaxis(m.values, i, start))
     elif fam == 'newaxis':
         for pos in range(0, nd + 1):
-            for vals in (None, [7, 8, 9], ['p', 'q'], np.array([1.5, 2.5]), [30.5], ['only']):
+            for vals in (None, [7, 8, 9], ['p', 'q'], np.array([1.5, 2.5]), [30.5], ['only'], MIXED):
                 ed = list(m.dims)
                 ed.insert(pos, 'n')
                 kw = {} if vals is None else {"values": vals}
@@ -191,7 +199,7 @@ def check(case, ctx):
                 else:
                     fn = lambda kw=kw, pos=pos: a.newaxis('n', pos=pos, **kw)
                 judge("a.newaxis('n', pos=%d, values=%s)" % (pos, codec.short(vals)), fn, ed, introduced=('n',),
-                      new_labels={'n': [None] if vals is None else list(np.asarray(vals).tolist())})
+                      new_labels={'n': [None] if vals is None else list(np.asarray(vals).tolist())}, exact_types=vals is MIXED)
         judge("a.newaxis('n', pos=-1)", lambda: a.newaxis('n', pos=-1), list(m.dims) + ['n'], introduced=('n',), new_labels={'n': [None]})
         # the usual next step: the new singleton gets its label, in place, on the result (the operand and every other result keep theirs)
         early = a.newaxis('n', pos=0)
@@ -300,6 +308,21 @@ def check(case, ctx):
                 msg = model.compare(g, model.MA(expv, m.dims, labs), "broadcast of singleton dim %r onto labels %r%s" % (m.dims[i], tl, base))
                 if msg:
                     ctx.v(ID, "broadcast:own-singleton", msg)
+        # a target with an empty axis the array lacks: nothing to replicate the data along, the result is empty along it
+        for pos_ in (0, nd):
+            taxes = [da.Axis(gen.np_labels(l, k), d) for d, l, k in own]
+            taxes.insert(pos_, da.Axis(np.array([], dtype=float), 'e0'))
+            ed_ = list(m.dims)
+            ed_.insert(pos_, 'e0')
+            res, exc = ctx.call("a.broadcast(target with an empty axis 'e0' at %d)" % pos_ + base, lambda taxes=taxes: a.broadcast(taxes), operands=(a,), ambient=True)
+            ctx.outcomes['variants-checked'] += 1
+            ctx.outcomes['broadcast-onto-empty-axis'] += 1
+            if exc is None and common.is_da(res):
+                shp_ = list(m.shape)
+                shp_.insert(pos_, 0)
+                if list(res.dims) != ed_ or list(res.shape) != shp_ or res.axes['e0'].size != 0:
+                    ctx.v(ID, "broadcast:empty-axis", "a.broadcast(target with an empty axis 'e0' at %d)%s returned dims %r shape %r labels of 'e0' %r, expected dims %r shape %r and no label" % (
+                        pos_, base, res.dims, res.shape, res.axes['e0'].values.tolist() if 'e0' in res.dims else None, tuple(ed_), tuple(shp_)))
     elif fam == 'broadcast_arrays':
         bsp = case["b"]
         mb = model.from_spec(bsp)
